@@ -13,6 +13,10 @@ func main() {
 	switch os.Args[1] {
 	case "prepare":
 		os.Exit(cmdPrepare(os.Args[2:]))
+	case "check":
+		os.Exit(cmdCheck(os.Args[2:]))
+	case "replay":
+		os.Exit(cmdReplay(os.Args[2:]))
 	default:
 		fmt.Fprintln(os.Stderr, "unknown command", os.Args[1])
 		os.Exit(2)
